@@ -21,7 +21,8 @@ type c13Peer struct {
 	Remote  string `json:"remote"`
 	Local   string `json:"local,omitempty"`
 	Passive bool   `json:"passive"`
-	State   string `json:"state"` // fresh opensent openconfirm est-in est-out est-collision held-down deleted readded
+	State   string `json:"state"` // fresh aborted-in opensent openconfirm est-in est-out est-collision held-down deleted readded
+	HD      string `json:"hd,omitempty"`    // held-down: state in which the protocol error is caused (default opensent)
 	ArmD    int64  `json:"arm_d,omitempty"` // est-collision: delay of the peer manager at its collision schedule point
 }
 
@@ -172,7 +173,7 @@ func c13Prop(t *testing.T, r *hx.Run) func(c c13Case) hx.Verdict {
 				sp := c13Spec(p, i)
 				dst := world.LocalFor(sp)
 				switch p.State {
-				case "opensent", "openconfirm", "est-in", "held-down":
+				case "opensent", "openconfirm", "est-in", "held-down", "aborted-in":
 					cn := w.Inbound(p.Remote, dst)
 					w.Settle()
 					if len(cn.Snapshot().Bytes()) == 0 {
@@ -186,7 +187,17 @@ func c13Prop(t *testing.T, r *hx.Run) func(c c13Case) hx.Verdict {
 						world.Handshake(w, sp, cn, 90, 0x0a000063+uint32(i))
 						ests = append(ests, estConn{i, cn})
 					case "held-down":
+						switch p.HD {
+						case stOpenConfirm:
+							cn.RemoteSend(world.RemoteOpen(sp, cn, 90, 0x0a000063+uint32(i)).Frame(), nil)
+							w.Settle()
+						case stEstablished:
+							world.Handshake(w, sp, cn, 90, 0x0a000063+uint32(i))
+						}
 						cn.RemoteSend(bad, nil) // Connection Not Synchronized: a protocol error
+					case "aborted-in":
+						// a TCP failure in OpenSent: no hold-down, nothing in progress afterwards
+						cn.RemoteClose()
 					}
 					w.Settle()
 				case "est-out":
@@ -366,12 +377,15 @@ func genC13(rt *rapid.T) c13Case {
 				p.Local = pick(rt, "local6", "2001:db8::1", "2001:db8:1::1")
 			}
 		}
-		p.State = pick(rt, "state", "fresh", "fresh", "opensent", "openconfirm", "est-in", "est-out", "est-collision", "held-down", "held-down-2", "deleted", "readded")
+		p.State = pick(rt, "state", "fresh", "fresh", "aborted-in", "opensent", "openconfirm", "est-in", "est-out", "est-collision", "held-down", "held-down-2", "deleted", "readded")
 		if (p.State == "est-out" || p.State == "est-collision") && p.Passive {
 			p.Passive = false
 		}
 		if p.State == "est-collision" {
 			p.ArmD = pick[int64](rt, "armd", 0, 10, 50, 150)
+		}
+		if p.State == "held-down" {
+			p.HD = pick(rt, "hd", "", stOpenConfirm, stEstablished)
 		}
 		c.Peers = append(c.Peers, p)
 	}
